@@ -160,6 +160,13 @@ def _run(check: PropertyCheck, driver_module: str, tier: str, seed: int, t0: flo
         res = tlc.run_tlc(spec["module"], spec.get("cfg"), workers=spec.get("workers", 1),
                           constants=spec.get("constants"), coverage=spec.get("coverage", False),
                           timeout=spec.get("timeout", 3600), heap=spec.get("heap", "3g"))
+        if spec.get("expect_violation"):
+            if res.violated != spec["expect_violation"]:
+                raise MachineryError(f"as-is switch of {spec['module']}: expected TLC to find a violation of "
+                                     f"{spec['expect_violation']}, got {res.violated}")
+            mc_info.append({"module": spec["module"], "constants": spec.get("constants", {}), "as_is_counterexample": res.violated,
+                            "states": res.distinct, "wall_s": round(res.wall_s, 2)})
+            continue
         if res.violated:
             raise MachineryError(f"specification {spec['module']} violates its own invariant {res.violated} "
                                  f"(the implementation-shaped part does not refine the declarative part):\n"
